@@ -436,6 +436,9 @@ class SimNet:
             self.stats['tls_upgrade'] += 1
             return conn, protocol
         self.stats['connect'] += 1
+        if not isinstance(port, int) or not 0 <= port <= 65535:
+            # what the real loop does (getaddrinfo / sock.connect): not an OSError
+            raise OverflowError('getsockaddrarg: port must be 0-65535.')
         verdict = self.connect_faults(host, port) if self.connect_faults else None
         factory = self.lookup(host, port)
         if self.vary_latency:
